@@ -18,14 +18,17 @@ RULE = ("Stateful peer.  (a) modes: for every mode m of get_operation_modes(True
         "24/7 discharge, every schedule type on/off, 745-scaled, NOT_SET marker, undecodable garbage} and groups 2-4 "
         "switched on; (p, s) over a grid of boundaries + seeded values in quick, ALL 100 x 101 pairs in thorough.  "
         "Oracle: the getter returns m; for ECO_CHARGE / ECO_DISCHARGE group 1 IN THE PEER'S REGISTERS decodes "
-        "(reference decoder, schedule-type aware) to power -p / +p, SoC == s for charge on 12-byte groups, and groups "
-        "2-4 have a non-negative on/off byte.  A setter that raises makes the case vacuous (counted).  (b) export "
+        "(reference decoder, schedule-type aware) to an all-day, every-day, enabled ECO-MODE typed group with power "
+        "-p / +p and SoC == s (both emulated modes; an 8-byte group has no SoC field, so any s != 100 is reported - "
+        "these SoC deviations are listed known findings), and groups 2-4 have a non-negative on/off byte.  A third of the mode cases answer one request of the setter's sequence with a Modbus exception, another third lose one request together with its retransmission: the setter must raise or really have set everything.  A setter that raises makes the case vacuous (counted).  (b) export "
         "limit: set/get for all values 0..65534 (thorough; stride in quick) on ET, DT (three-/single-phase) and ES; "
         "(c) DoD: all 0..100 on ET and ES.  Non-trivial: every case; distinct: (config, mode, prior kind, p, s).")
 ASSUMPTIONS = [
     "ES device model: 0359 sets the work mode word of the settings block (offset 66), 0335 the export limit "
     "(offset 52), register 0x560 is the DoD word (offset 32); other 03xx commands are acknowledged only (DESIGN 2.4)",
-    "8-byte (v1) groups have no SoC field and encode_discharge takes no SoC: nothing is demanded there",
+    "s == 100 on an 8-byte (v1) group counts as satisfied (100 % = no limit is what a group without the field does)",
+    "group 1 must carry schedule type 0 (eco mode) or 6 (eco mode, 745 platform): 'whatever schedule type the firmware "
+    "uses' is read as these two eco flavours, not as dry-contact / peak-shaving / backup / smart-charge schedules",
     "'other groups switched off' is read from the peer's registers (on/off byte >= 0)",
 ]
 LEVEL_TEXT = ("Seeded exploration over firmware variants x prior register states x argument grid, with the peer's "
@@ -75,19 +78,26 @@ def make_case(tier, seed, index):
     if c[0] == "mode":
         _, ci, mi, pi, ch = c
         rj = None
+        lose = None
         if CONFIGS[ci][0] == "ET" and index % 3 == 2:
             rj = [(index // 3) % 9, [3, 4, 6][(index // 27) % 3]]
+        elif index % 3 == 1:
+            # the j-th request of the setter's sequence is lost together with its retransmission
+            lose = (index // 3) % 12
         return {"kind": "mode", "config": ci, "mode_slot": mi, "prior": PRIORS[pi], "chunk": ch,
-                "seed": (seed * 4099 + index) & 0xFFFFFF, "thorough": tier == "thorough", "reject": rj}
+                "seed": (seed * 4099 + index) & 0xFFFFFF, "thorough": tier == "thorough", "reject": rj, "lose": lose}
     if c[0] == "export":
         return {"kind": "export", "fam": c[1], "chunk": c[2], "stride": EXPORT_STRIDE[tier], "seed": seed}
     return {"kind": "dod", "config": c[1], "seed": seed}
 
 
 def simplify(case):
+    out = []
     if case.get("reject") is not None:
-        return [dict(case, reject=None)]
-    return []
+        out.append(dict(case, reject=None))
+    if case.get("lose") is not None:
+        out.append(dict(case, lose=None))
+    return out
 
 
 def v1_group(sh, sm, eh, em, power, on, days):
@@ -226,6 +236,10 @@ def run_mode(case):
                 # value): the setter must either raise or, if it reports success, the mode must really be set
                 j, code = case["reject"]
                 world.net.begin_script([{"k": "ok"}] * j + [{"k": "exc", "code": code}], {"k": "ok"})
+            elif case.get("lose") is not None:
+                # one request inside the setter's sequence gets no answer at all (retries=1: two transmissions lost):
+                # the setter must raise - or, if it reports success, everything must really be set
+                world.net.begin_script([{"k": "ok"}] * case["lose"] + [{"k": "drop"}] * 2, {"k": "ok"})
             else:
                 world.net.begin_script([], {"k": "ok"})
             what = f"{fam}/{var}/{tr} prior group1={case['prior']} set_operation_mode({m.name}, {p}, {s})"
